@@ -452,4 +452,108 @@ def r15_9(ctx):
     borrow(ctx, r6_5, "R6.5", "R15.9", " [the styled export decodes to the printed styles: every set attribute reaches the SGR codes (guard masks of _make_ansi_codes cover every attribute bit)]")
 
 
-RULES = [r15_1, r15_2, r15_3, r15_4, r15_5, r15_6, r15_7, r15_8, r15_9]
+def r15_10(ctx):
+    ctx.rule("R15.10", "save_text / save_html are export_text / export_html plus a file: every option the save method shares with its export method is forwarded to it under the same name (or in its position). An option that is accepted and then dropped silently takes the export's default - save_html(path, clear=False) would empty the record although it was told not to, and the next export shows only later output")
+    n = 0
+    for kind in ("text", "html"):
+        sv = ctx.repo.fn(f"console:Console.save_{kind}")
+        ex = ctx.repo.fn(f"console:Console.export_{kind}")
+
+        def all_params(f):
+            a = f.node.args
+            return [x.arg for x in a.posonlyargs + a.args + a.kwonlyargs if x.arg != "self"]
+        shared = [p_ for p_ in all_params(sv) if p_ in all_params(ex)]
+        calls = [c for c in walk_local(sv.node) if isinstance(c, ast.Call) and norm(c.func) == f"self.export_{kind}"]
+        if len(calls) != 1:
+            raise AnalysisError(f"Console.save_{kind}: expected exactly one call of self.export_{kind}")
+        c = calls[0]
+        where = f"{sv.module.relpath}:{c.lineno}"
+        if any(k.arg is None for k in c.keywords) or any(isinstance(a, ast.Starred) for a in c.args):
+            raise AnalysisError(f"Console.save_{kind}: options are forwarded through */** - not read by this rule")
+        pos = [x.arg for x in ex.node.args.posonlyargs + ex.node.args.args if x.arg != "self"]
+        passed = {}
+        for i, a in enumerate(c.args):
+            if i < len(pos):
+                passed[pos[i]] = a
+        for k in c.keywords:
+            passed[k.arg] = k.value
+        from ..astutil import inline as _inl, single_defs as _sdf
+        sd = _sdf(sv.node)
+        for p_ in shared:
+            n += 1
+            v = passed.get(p_)
+            if v is None:
+                ctx.violation(sv.fq, short(c), where, f"save_{kind} accepts `{p_}` but does not pass it to export_{kind}: the export runs with its own default whatever the caller asked for (save_{kind}(path, {p_}=...) is ignored{' - with clear=False the record is emptied all the same' if p_ == 'clear' else ''})")
+            elif norm(_inl(v, {k_: v_ for k_, v_ in sd.items() if k_ != p_})) != p_:
+                if isinstance(v, ast.Constant):
+                    ctx.violation(sv.fq, short(c), where, f"save_{kind} passes the constant `{norm(v)}` for `{p_}` instead of its own argument")
+                else:
+                    raise AnalysisError(f"Console.save_{kind}: `{p_}={norm(v)}` is not the parameter itself; not decided")
+            else:
+                ctx.ok(where, f"`{p_}` forwarded to export_{kind}", sv.fq)
+    ctx.floor(n, 5, "options shared by save_* and export_*")
+
+
+def r15_11(ctx):
+    from .common import segment_streams
+    from ..yieldpaths import canon_test
+    ctx.rule("R15.11", "a control segment stays a control segment: every Segment method that rebuilds the segments of a stream (apply_style, strip_links, strip_styles, remove_color, adjust_line_length, split_lines ..) constructs the new segment with the source's is_control flag, or constructs it only on paths where the source is known not to be a control segment. A rebuilt control code without the flag becomes ordinary text: it is exported (export_text / export_html contain the raw bell, clear and cursor codes) and written to non-terminals")
+    m = ctx.repo.mod("segment")
+    n = 0
+    seen = set()
+    for f in m.functions.values():
+        if id(f) in seen or f.cls is None or f.cls.name != "Segment":
+            continue
+        seen.add(id(f))
+        if not any(isinstance(c, ast.Call) and norm(c.func) in ("cls", "Segment", "_Segment") for c in walk_local(f.node)):
+            continue
+        decided = False
+        try:
+            streams = segment_streams(f, lambda it, f=f: isinstance(it, ast.Name) and it.id in f.params)
+            decided = True
+        except AnalysisError:
+            streams = []
+        if decided:
+            for src, paths, anchor in streams:
+                for d, e in paths:
+                    if not e:
+                        continue
+                    try:
+                        c = ast.parse(e, mode="eval").body
+                    except SyntaxError:
+                        continue
+                    if not (isinstance(c, ast.Call) and norm(c.func) in ("cls", "Segment", "_Segment")):
+                        continue
+                    n += 1
+                    where = f"{m.relpath}:{anchor.lineno}"
+                    has_flag = len(c.args) >= 3 or any(k.arg == "is_control" for k in c.keywords)
+                    if has_flag:
+                        flag = c.args[2] if len(c.args) >= 3 else next(k.value for k in c.keywords if k.arg == "is_control")
+                        okf = norm(flag) == "CTRL" or (isinstance(flag, ast.Constant) and flag.value is True) or (isinstance(flag, ast.Constant) and flag.value is False and d.get("CTRL") is False)
+                        ctx.check(okf or not isinstance(flag, ast.Constant), f.fq, e[:90], where, "the rebuilt segment carries the source's control flag", f"`{e}` sets is_control to a constant that is not the source segment's flag")
+                    else:
+                        ctx.check(d.get("CTRL") is False, f.fq, e[:90], where, "rebuilt without the flag only where the source is known not to be a control segment",
+                                  f"`{e}` is built without the is_control flag on a path where the source segment may be a control segment ({ {k: v for k, v in d.items()} }): the control code becomes ordinary text - after print(Control(..), style=..) or log(Control(..)) the bell / cursor codes show up in export_text, export_html and in files")
+            continue
+        # methods outside the stream normal form (while loops): every flag-less construction sits under a test that excludes control segments
+        for c in walk_local(f.node):
+            if not (isinstance(c, ast.Call) and norm(c.func) in ("cls", "Segment", "_Segment") and c.args):
+                continue
+            if len(c.args) >= 3 or any(k.arg == "is_control" for k in c.keywords):
+                continue
+            if isinstance(c.args[0], ast.Constant) or (isinstance(c.args[0], ast.BinOp) and isinstance(c.args[0].op, ast.Mult)):
+                continue  # new text (a new line, padding), not a rebuilt segment
+            n += 1
+            cur, child = m.parent_of.get(c), c
+            excl = False
+            while cur is not None and cur is not f.node:
+                if isinstance(cur, ast.If) and any(child is b or child in list(ast.walk(b)) for b in cur.body):
+                    for a, tv in canon_test(cur.test, True):
+                        if a.endswith(".is_control") and tv is False:
+                            excl = True
+                child, cur = cur, m.parent_of.get(cur)
+            ctx.check(excl, f.fq, short(c), f"{m.relpath}:{c.lineno}", "rebuilt only for non-control segments", f"`{short(c)}` rebuilds a segment without the is_control flag and no enclosing test excludes control segments")
+    ctx.floor(n, 8, "segment reconstructions in Segment")
+
+
+RULES = [r15_1, r15_2, r15_3, r15_4, r15_5, r15_6, r15_7, r15_8, r15_9, r15_10, r15_11]
